@@ -128,6 +128,10 @@ class AioDriver:
                 self.loop.call(self.session.publish, unjbytes(ev[1]).decode(), unjbytes(ev[2]))
             elif k == 'read':
                 self.reads.append(self.loop.call(asyncio.ensure_future, self.session.read()))
+            elif k == 'next':
+                # one step of `async for message in session` (generated only while close() has not been called, where it is
+                # the same operation as read() - that is what the model's KRead stands for)
+                self.reads.append(self.loop.call(asyncio.ensure_future, self.session.__anext__()))
             elif k == 'close':
                 if self.close_fut is None:
                     self.close_fut = self.loop.call(asyncio.ensure_future, self.session.close())
@@ -249,7 +253,7 @@ def coq_event(ev):
         return 'KUnsub %s' % coq_bytes(unjbytes(ev[1]))
     if k == 'pub':
         return 'KPub %s %s' % (coq_bytes(unjbytes(ev[1])), coq_segs(unjbytes(ev[2])))
-    if k == 'read':
+    if k in ('read', 'next'):
         return 'KRead'
     if k == 'close':
         return 'KClose'
@@ -273,6 +277,7 @@ def gen_events(rng, nconn=None, with_close=None):
     with_close = rng.random() < 0.5 if with_close is None else with_close
     close_at = rng.randrange(0, 40) if with_close else None
     step = [0]
+    closed = [False]
 
     def app():
         for _ in range(rng.choice([0, 0, 1, 1, 2])):
@@ -284,12 +289,13 @@ def gen_events(rng, nconn=None, with_close=None):
             elif r < 0.75:
                 ev.append(['pub', jbytes(rng.choice(TOPICS).encode()), jbytes(bytes(rng.randrange(256) for _ in range(rng.randint(0, 9))))])
             elif r < 0.9:
-                ev.append(['read'])
+                ev.append(['next'] if (not closed[0] and rng.random() < 0.5) else ['read'])
             else:
                 ev.append(['idle'])
         step[0] += 1
         if close_at is not None and step[0] == close_at % 25 + 1:
             ev.append(['close'])
+            closed[0] = True
     if rng.random() < 0.9:
         app()
         ev.append(['idle'])
